@@ -399,7 +399,7 @@ def confirm_row_contract():
         e = st.eng
         c = ctx(e, st)
         if c is None:
-            return [("distributions_of_K_and_of_every_row_of_DY_computed", False, "P")]
+            return [("distributions_of_K_and_of_every_row_of_DY_computed", False, "S")]
         FE, nK, mY = c
         i, lb, d = st.i, zb(lift_b(st.lb_is_confirmed)), st.d
         j, ii = z3.Int(e.uniq("qj")), z3.Int(e.uniq("qi"))
@@ -414,7 +414,7 @@ def confirm_row_contract():
         e = st.eng
         c = ctx(e, st)
         if c is None:
-            return [("distributions_of_K_and_of_every_row_of_DY_computed", False, "P")]
+            return [("distributions_of_K_and_of_every_row_of_DY_computed", False, "S")]
         FE, nK, mY = c
         i, j, lb, d = st.i, st.j, zb(lift_b(st.lb_is_confirmed)), st.d
         q, ii, jj = z3.Int(e.uniq("qj")), z3.Int(e.uniq("qi")), z3.Int(e.uniq("qjj"))
@@ -433,7 +433,7 @@ def confirm_row_contract():
         e = a.eng
         c = ctx(e, a)
         if c is None:
-            return [("distributions_of_K_and_of_every_row_of_DY_computed", False, "P")]
+            return [("distributions_of_K_and_of_every_row_of_DY_computed", False, "S")]
         FE, nK, mY = c
         reps = e.ghost.get("rep_calls", [])
         um = e.ghost.get("umax_calls", [])
@@ -534,7 +534,7 @@ def curvature_contract():
         K = st.K
         phi, k = witness(st)
         if phi is None:
-            return [("K_is_a_principal_submatrix_of_DX", False, "P")]
+            return [("K_is_a_principal_submatrix_of_DX", False, "S")]
         n = g["n"]
         return [("K_is_square_and_no_larger_than_DX", b_and(lift(K.shape[0]) == K.shape[1], lift(K.shape[0]) >= 0, lift(K.shape[0]) <= n), "P"),
                 ("index_map_into_X", st.each([(0, k)], lambda i: b_and(lift(phi(i)) >= 0, lift(phi(i)) < n), name="cp"), "P"),
@@ -552,7 +552,7 @@ def curvature_contract():
     def ensures(a, res):
         e, g = a.eng, a.g
         if not (isinstance(res, Arr) and res.ndim == 2):
-            return [("returns_a_matrix", False, "P")]
+            return [("returns_a_matrix", False, "S")]
         k = res.shape[0]
         i, j = e.fresh_int("ri", lo=0, hi=k), e.fresh_int("rj", lo=0, hi=k)
         base = e.ghost.get("curv_phi")
@@ -561,7 +561,7 @@ def curvature_contract():
         elif base is not None:
             phi = lambda t: Num(base(to_z3(lift(t))))
         else:
-            return [("result_is_a_principal_submatrix_of_DX", False, "P")]
+            return [("result_is_a_principal_submatrix_of_DX", False, "S")]
         return [("square", lift(res.shape[0]) == res.shape[1], "P"),
                 ("selected_points_exist_and_are_distinct", b_and(lift(phi(i)) >= 0, lift(phi(i)) < g["n"], BoolV(z3.Implies(to_z3(lift(i)) != to_z3(lift(j)), to_z3(lift(phi(i))) != to_z3(lift(phi(j)))))), "P"),
                 ("entries_are_the_distances_between_the_selected_points", lift(res.get(i, j)) == a.DX.get(phi(i), phi(j)), "P"),
